@@ -503,7 +503,34 @@ pub fn g6_off_by_one(rng: &mut Rng) -> Vec<u8> {
     let n = 1 + rng.usize(3);
     for _ in 0..n {
         let owner = rng.pick(&pool).clone();
-        let rec = match rng.below(5) {
+        let rec = match rng.below(7) {
+            5 | 6 => {
+                // TXT, well formed: many strings of text outside ASCII (2-, 3- and 4-byte characters at every
+                // alignment), a few hundred bytes in all - whatever formats the half-read message has to cope
+                let mut t: Vec<u8> = Vec::new();
+                let strings = 1 + rng.usize(8);
+                for _ in 0..strings {
+                    let mut sbytes: Vec<u8> = Vec::new();
+                    let want = rng.usize(120);
+                    if rng.chance(1, 2) {
+                        sbytes.extend(b"key=");
+                    }
+                    while sbytes.len() < want {
+                        let c = match rng.below(5) {
+                            0 => char::from(b'a' + rng.below(26) as u8),
+                            1 => *rng.pick(&['\u{e9}', '\u{fc}', '\u{df}', '\u{f8}']),
+                            2 | 3 => *rng.pick(&['\u{65e5}', '\u{672c}', '\u{20ac}', '\u{8a9e}']),
+                            _ => *rng.pick(&['\u{1f600}', '\u{1f5a8}', '\u{10348}']),
+                        };
+                        let mut buf = [0u8; 4];
+                        sbytes.extend(c.encode_utf8(&mut buf).as_bytes());
+                    }
+                    sbytes.truncate(255);
+                    t.push(sbytes.len() as u8);
+                    t.extend(sbytes);
+                }
+                wire::rec(&owner, wire::T_TXT, 1 | wire::FLUSH, 120, RData::Raw(t))
+            }
             0 | 1 => {
                 // TXT: strings, the last length byte off by one
                 let mut t: Vec<u8> = Vec::new();
